@@ -71,6 +71,7 @@ struct State {
     failures: Vec<Failure>,
     nondet: Option<String>,
     max_failures: usize,
+    repeat: bool,
 }
 
 impl State {
@@ -140,6 +141,7 @@ thread_local! {
     static OUTCOME: RefCell<Option<String>> = const { RefCell::new(None) };
     static QUIET: RefCell<bool> = const { RefCell::new(false) };
     static EXPLORING: std::cell::Cell<bool> = const { std::cell::Cell::new(true) };
+    static MORE: std::cell::Cell<bool> = const { std::cell::Cell::new(false) };
     static LAST_PANIC: RefCell<Option<String>> = const { RefCell::new(None) };
     static PANIC_LOG: RefCell<Vec<String>> = const { RefCell::new(Vec::new()) };
 }
@@ -155,6 +157,10 @@ pub fn report_violation(msg: impl Into<String>) {
 /// tasks run until they block). Only the concurrent window of a scenario is
 /// explored; set-up and final checks are not part of the schedule space.
 pub fn exploring(on: bool) { EXPLORING.with(|e| e.set(on)); }
+
+/// Repeat mode (`Cfg::repeat`): the scenario says whether another execution
+/// (under the default schedule) is wanted.
+pub fn set_more(more: bool) { MORE.with(|m| m.set(more)); }
 
 /// Let every other runnable task run until it blocks (non-exploring phase).
 pub async fn settle() {
@@ -242,7 +248,14 @@ impl Scheduler for DfsSched {
                 s.done = true;
                 return None;
             }
-            if !s.backtrack() {
+            if s.repeat {
+                if !MORE.with(|m| m.get()) {
+                    s.done = true;
+                    return None;
+                }
+                s.step = 0;
+                s.stack.clear();
+            } else if !s.backtrack() {
                 s.done = true;
                 return None;
             }
@@ -324,7 +337,7 @@ impl Scheduler for DfsSched {
     fn next_u64(&mut self) -> u64 { 0 }
 }
 
-#[derive(Clone, Debug)]
+#[derive(Clone)]
 pub struct Cfg {
     pub bound: usize,
     pub prefix: Vec<usize>,
@@ -333,6 +346,18 @@ pub struct Cfg {
     pub deadline: Option<Instant>,
     pub max_failures: usize,
     pub stack_size: usize,
+    /// run the scenario again and again (default schedule) while it asks for
+    /// more via `set_more(true)`
+    pub repeat: bool,
+    /// called (outside shuttle) when an execution dies with a deadlock, step
+    /// cap or escaped panic
+    pub on_failure: Option<Arc<dyn Fn(&Failure) + Send + Sync>>,
+}
+
+impl std::fmt::Debug for Cfg {
+    fn fmt(&self, f: &mut std::fmt::Formatter<'_>) -> std::fmt::Result {
+        write!(f, "Cfg(bound={})", self.bound)
+    }
 }
 
 impl Cfg {
@@ -345,6 +370,8 @@ impl Cfg {
             deadline: None,
             max_failures: 200,
             stack_size: 1 << 20,
+            repeat: false,
+            on_failure: None,
         }
     }
 
@@ -395,7 +422,9 @@ pub fn explore(
         failures: Vec::new(),
         nondet: None,
         max_failures: cfg.max_failures,
+        repeat: cfg.repeat,
     }));
+    let on_failure = cfg.on_failure.clone();
 
     loop {
         let mut scfg = shuttle::Config::new();
@@ -432,6 +461,13 @@ pub fn explore(
                     }
                 }
                 let schedule = s.current_schedule();
+                if let Some(cb) = &on_failure {
+                    cb(&Failure {
+                        kind: kind.clone(),
+                        msg: msg.clone(),
+                        schedule: schedule.clone(),
+                    });
+                }
                 if s.failures.len() < s.max_failures {
                     s.failures.push(Failure { kind, msg, schedule });
                 }
